@@ -14,6 +14,7 @@ import (
 	"net"
 	"os"
 	"reflect"
+	"runtime"
 	"sort"
 	"strings"
 	"sync"
@@ -866,17 +867,72 @@ func c01Judge(cfg c01Cfg, k *c01Call, p *c01Prepared, o c01Outcome) {
 	if p.plan.ret.IsValid() && !valuesEqual(p.plan.ret, o.ret, nil) {
 		fail("return", "value-differs", "%s: returned %s, the implementation returned %s", k.Fn, trunc200(dumpVal(o.ret)), trunc200(dumpVal(p.plan.ret)))
 	}
-	for i, ov := range outs {
-		if !valuesEqual(p.plan.outs[i], ov, nil) {
-			fail("out", priorClass, "%s: out parameter %d is %s, the implementation set %s", k.Fn, i, trunc200(dumpVal(ov)), trunc200(dumpVal(p.plan.outs[i])))
+	oi := 0
+	for i := range p.f.argT {
+		if p.f.Dirs[i] != 'o' {
+			continue
 		}
+		ov, want := outs[oi], p.plan.outs[oi]
+		if !valuesEqual(want, ov, nil) {
+			class := priorClass + "/value-differs"
+			// the known defects of decoding into a variable that holds a value: exactly the members the implementation
+			// left empty keep the caller's earlier content (see c01StaleMerge)
+			if k.Prior {
+				switch {
+				case valuesEqual(c01StaleMerge(p.vals[i], want, true, false), ov, nil):
+					class = priorClass + "/stale-optional-member"
+				case valuesEqual(c01StaleMerge(p.vals[i], want, false, true), ov, nil):
+					class = priorClass + "/stale-empty-byte-vector"
+				case valuesEqual(c01StaleMerge(p.vals[i], want, true, true), ov, nil):
+					class = priorClass + "/stale-optional-member+empty-byte-vector"
+				}
+			}
+			fail("out", class, "%s: out parameter %d is %s, the implementation set %s (the caller's variable held %s before the call)", k.Fn, oi, trunc200(dumpVal(ov)), trunc200(dumpVal(want)), trunc200(dumpVal(p.vals[i])))
+		}
+		oi++
 	}
-	if k.NOpts >= 1 && !c01MapsEqual(p.ctxMap, p.plan.rctx) {
+	// a map the caller passed holds exactly the response map afterwards; a nil map cannot receive anything and stays nil
+	if k.NOpts >= 1 && p.ctxMap != nil && !c01MapsEqual(p.ctxMap, p.plan.rctx) {
 		fail("response-context", "differs", "%s: the caller's context map is %s after the call, the implementation set %s", k.Fn, c01Map(p.ctxMap), c01Map(p.plan.rctx))
 	}
-	if k.NOpts >= 2 && !c01MapsEqual(p.stMap, p.plan.rstatus) {
+	if k.NOpts >= 2 && p.stMap != nil && !c01MapsEqual(p.stMap, p.plan.rstatus) {
 		fail("response-status", "differs", "%s: the caller's status map is %s after the call, the implementation set %s", k.Fn, c01Map(p.stMap), c01Map(p.plan.rstatus))
 	}
+}
+
+// c01StaleMerge returns what an out variable holding `prior` contains after the generated proxy has decoded `set`
+// into it, given two known defects of decoding into a target that already holds a value:
+//   optMember (C04, generated ResetDefault): an optional vector/map member of a struct that `set` leaves empty is not
+//     on the wire and ResetDefault does not clear it, so the prior content stays;
+//   emptyBytes (codec.ReadSliceInt8/ReadSliceUint8 return at once for length 0): an empty vector<byte> /
+//     vector<unsigned byte> does not replace the prior content.
+// Directly nested structs are decoded in place (same effects); elements of vectors and maps are decoded into fresh
+// values (no effect).
+func c01StaleMerge(prior, set reflect.Value, optMember, emptyBytes bool) reflect.Value {
+	t := set.Type()
+	isBytes := func(t reflect.Type) bool {
+		return t.Kind() == reflect.Slice && (t.Elem().Kind() == reflect.Int8 || t.Elem().Kind() == reflect.Uint8)
+	}
+	if emptyBytes && isBytes(t) && set.Len() == 0 && prior.Len() > 0 {
+		return prior
+	}
+	if t.Kind() != reflect.Struct {
+		return set
+	}
+	out := reflect.New(t).Elem()
+	out.Set(set)
+	for _, f := range fieldsOf(t) {
+		pf, sf := prior.Field(f.Idx), set.Field(f.Idx)
+		switch sf.Kind() {
+		case reflect.Slice, reflect.Map:
+			if sf.Len() == 0 && pf.Len() > 0 && ((optMember && !f.Req) || (emptyBytes && f.Req && isBytes(sf.Type()))) {
+				out.Field(f.Idx).Set(pf)
+			}
+		case reflect.Struct:
+			out.Field(f.Idx).Set(c01StaleMerge(pf, sf, optMember, emptyBytes))
+		}
+	}
+	return out
 }
 
 func c01SeenCount(key string) int {
@@ -895,6 +951,54 @@ func c01AwaitSeen(key string, want int) bool {
 		time.Sleep(2 * time.Millisecond)
 	}
 	return false
+}
+
+var c01CaseStart int64
+
+// c01Watchdog writes all goroutine stacks to stderr (kept by the parent) once when a case takes longer than 30 s.
+func c01Watchdog() {
+	for {
+		time.Sleep(time.Second)
+		if t := atomic.LoadInt64(&c01CaseStart); t != 0 && time.Now().UnixNano()-t > int64(30*time.Second) {
+			buf := make([]byte, 1<<20)
+			n := runtime.Stack(buf, true)
+			fmt.Fprintf(os.Stderr, "c01 child: a case has been running for more than 30 s; goroutines:\n%s\n", buf[:n])
+			return
+		}
+	}
+}
+
+// c01Probe makes sure that the process listening on the chosen port is this process's server (another process may
+// have taken the port between c01FreePort and tars.Run) before any case runs: one call of ping() must reach c01Imp.
+func c01Probe(proxy *e2e.E2E) error {
+	key := c01Key("ping", nil, nil, nil)
+	c01Mu.Lock()
+	c01Ctls[key] = c01Ctl{}
+	c01Mu.Unlock()
+	proxy.TarsSetTimeout(3000)
+	var err error
+	for i := 0; i < 3; i++ {
+		if err = proxy.PingWithContext(context.Background()); err == nil {
+			break
+		}
+	}
+	proxy.TarsSetTimeout(20000)
+	if err != nil {
+		return fmt.Errorf("probe call ping() failed: %v", err)
+	}
+	if c01SeenCount(key) == 0 {
+		return errors.New("probe call ping() returned without reaching this process's servant")
+	}
+	time.Sleep(20 * time.Millisecond)
+	c01Mu.Lock()
+	c01Seen = map[string]int{}
+	c01Unknown = nil
+	c01Mu.Unlock()
+	c01RelayMu.Lock()
+	c01ReqFr = nil
+	c01RspIDs = map[int32]int{}
+	c01RelayMu.Unlock()
+	return nil
 }
 
 func c01ChildMain(inPath, outPath string) {
@@ -918,9 +1022,16 @@ func c01ChildMain(inPath, outPath string) {
 		dir = outPath[:i]
 	}
 	proxy, err := c01StartServer(dir)
-	if err != nil {
-		fatal("c01 child: %v", err)
+	if err == nil {
+		err = c01Probe(proxy)
 	}
+	if err != nil {
+		// not a verdict about any case: the parent starts a fresh child for the same batch
+		os.WriteFile(outPath+".startup", []byte(err.Error()), 0o644)
+		fmt.Fprintf(os.Stderr, "c01 child: startup failed: %v\n", err)
+		os.Exit(3)
+	}
+	go c01Watchdog()
 	out := c01ChildOut{Failures: []Failure{}, Stats: map[string]int{}}
 	expectSeen := map[string]int{}
 	addFail := func(ci int, sig, desc string) {
@@ -928,6 +1039,7 @@ func c01ChildMain(inPath, outPath string) {
 	}
 	for ci := range cases {
 		cs := &cases[ci]
+		atomic.StoreInt64(&c01CaseStart, time.Now().UnixNano())
 		c01Mu.Lock()
 		c01Ctls = map[string]c01Ctl{} // the server is quiescent between batches
 		c01Mu.Unlock()
@@ -1081,7 +1193,7 @@ func c01ChildMain(inPath, outPath string) {
 			}
 		}
 		out.Cases = append(out.Cases, *cs)
-		if ci%20 == 19 || len(cs.Calls) > 1 {
+		if ci%20 == 19 || len(cs.Calls) > 1 || time.Now().UnixNano()-atomic.LoadInt64(&c01CaseStart) > int64(time.Second) {
 			pb, _ := json.Marshal(out)
 			os.WriteFile(outPath+".partial.tmp", pb, 0o644)
 			os.Rename(outPath+".partial.tmp", outPath+".partial")
